@@ -266,6 +266,34 @@ fn escaping_matrix(shard: usize, nshards: usize, st: &mut Stats) {
             texts.push(f);
         }
     }
+    // every local name web_atoms knows, as an HTML parent, with a few texts: escaped everywhere except
+    // under the seven raw-text names (and noscript with scripting); an end tag everywhere except for
+    // the 18 void names (one wrong row in the serializer's name tables shows here)
+    let mut idx = 0;
+    let all_names: Vec<&str> = include_str!("/repo/web_atoms/local_names.txt").lines().map(|l| l.trim()).filter(|l| !l.is_empty() && l.chars().all(|c| c.is_ascii_lowercase() || c.is_ascii_digit() || c == '-') && l.chars().next().unwrap().is_ascii_lowercase()).collect();
+    for p in &all_names {
+        idx += 1;
+        if idx % nshards != shard || VOID.contains(p) {
+            continue;
+        }
+        for t in ["&", "<", ">", "a&amp;b", "\u{a0}", "x<y>z"] {
+            for scripting in [true, false] {
+                let e = elem(NS_HTML, p, vec![]);
+                add(&e, text(t));
+                let raw = RAW.contains(p) || (*p == "noscript" && scripting);
+                let want = if raw { t.to_string() } else { escape5(t) };
+                st.evaluations += 1;
+                st.count("name_table_cells");
+                let outer = ser(&e, TraversalScope::IncludeNode, scripting);
+                let wrapped = format!("<{p}>{want}</{p}>");
+                match outer {
+                    Ok(o) if o == wrapped => {},
+                    Ok(o) => st.violation("matrix:name-table", &format!("<{p}> text {}: serialization {} expected {}", show(t), show(&o), show(&wrapped)), json!({"kind": "matrix", "ns": NS_HTML, "parent": p, "text": t, "scripting": scripting})),
+                    Err(m) => st.violation("matrix:panic", &format!("<{p}> text {}: serializer panicked: {m}", show(t)), json!({"kind": "matrix", "ns": NS_HTML, "parent": p, "text": t})),
+                }
+            }
+        }
+    }
     let mut idx = 0;
     for ns in [NS_HTML, NS_SVG, NS_MATHML] {
         for p in &parents {
@@ -403,6 +431,6 @@ pub fn run(args: &Args) -> (Meta, Stats) {
         "(A) random RcDom trees built by hand over a safe vocabulary (no void, raw-text, RCDATA, implied-end-tag, nesting-restricted, table, form, formatting, heading or pre/listing/textarea elements) with hostile attribute values and text (& < > \" ' ; # NBSP, characters whose UTF-8 form starts with 0xC2, entity look-alikes, </div>, <!--, ]]>, long strings, U+FEFF first; no CR/NUL; text nodes non-empty and non-adjacent) are serialized, re-parsed with parse_fragment(context div, discard_bom=false) and compared exactly. (B) for every element of generated, parsed and hand-built trees (raw-text names in the HTML, SVG and MathML namespaces), both scripting settings: outer == start tag + inner(ChildrenOnly(Some(name))) + end tag. (C) exhaustive matrix parent (7 raw-text names, noscript, ordinary names) x namespace (html, svg, mathml) x text (17 specials alone, in pairs, and at offsets 0..33 of a filler): inner and outer serialization must equal an independent 5-rule escaper, or the raw text under HTML raw-text parents. Distinct = distinct serializations / matrix cells.",
         &["pre/listing/textarea are excluded from the round-trip vocabulary because the HTML syntax itself drops a leading LF there", "void elements are only checked when childless (the parser never gives them children)"],
     );
-    m.require = vec![("round_trips".into(), 2000), ("matrix_cells".into(), 50000), ("elements_checked_inner_outer".into(), 20000), ("parsed_trees_walked".into(), 500), ("serializations_into_short_write_writer".into(), 2000)];
+    m.require = vec![("round_trips".into(), 2000), ("matrix_cells".into(), 50000), ("name_table_cells".into(), 10000), ("elements_checked_inner_outer".into(), 20000), ("parsed_trees_walked".into(), 500), ("serializations_into_short_write_writer".into(), 2000)];
     (m, st)
 }
